@@ -300,7 +300,13 @@ func (h *Hist) setLoad(gi int, pct int, jitter int) {
 		h.podSeq++
 		q := &WPod{Name: fmt.Sprintf("odd%d", h.podSeq), NS: "ns", Phase: h.r.pick("Running", "Pending"), Annotations: map[string]string{},
 			Containers: [][2]int64{{int64(h.r.pickI(100, 2000)), int64(h.r.pickI(1, 8)) << 28}}, NodeSelector: map[string]string{}}
-		switch h.r.intn(4) {
+		switch h.r.intn(6) {
+		case 4: // explicitly avoids this group: NotIn on the group's own key and value
+			q.Affinity = &v1.Affinity{NodeAffinity: &v1.NodeAffinity{RequiredDuringSchedulingIgnoredDuringExecution: &v1.NodeSelector{
+				NodeSelectorTerms: []v1.NodeSelectorTerm{{MatchExpressions: []v1.NodeSelectorRequirement{{Key: "grp", Operator: v1.NodeSelectorOpNotIn, Values: []string{o.LabelValue}}}}}}}}
+		case 5: // selects the group's VALUE under another key
+			q.Affinity = &v1.Affinity{NodeAffinity: &v1.NodeAffinity{RequiredDuringSchedulingIgnoredDuringExecution: &v1.NodeSelector{
+				NodeSelectorTerms: []v1.NodeSelectorTerm{{MatchExpressions: []v1.NodeSelectorRequirement{{Key: "team", Operator: v1.NodeSelectorOpIn, Values: []string{o.LabelValue}}}}}}}}
 		case 0:
 			q.Affinity = &v1.Affinity{NodeAffinity: &v1.NodeAffinity{PreferredDuringSchedulingIgnoredDuringExecution: []v1.PreferredSchedulingTerm{{Weight: 1,
 				Preference: v1.NodeSelectorTerm{MatchExpressions: []v1.NodeSelectorRequirement{{Key: "grp", Operator: v1.NodeSelectorOpIn, Values: []string{o.LabelValue}}}}}}}}
@@ -459,7 +465,8 @@ func (h *Hist) randomEvent() string {
 		}
 	case 10, 11, 12:
 		d := []time.Duration{time.Second, 30 * time.Second, time.Duration(soft) * time.Second, time.Duration(hard) * time.Second,
-			cool - time.Second, cool, cool + time.Second, cool / 2, 2 * time.Duration(hard) * time.Second, time.Duration(soft+1) * time.Second}[r.intn(10)]
+			cool - time.Second, cool, cool + time.Second, cool / 2, 2 * time.Duration(hard) * time.Second, time.Duration(soft+1) * time.Second,
+			cool - 500*time.Millisecond, cool - 100*time.Millisecond, cool - 900*time.Millisecond}[r.intn(13)]
 		h.shift(d)
 		return "advance"
 	case 13:
@@ -502,7 +509,16 @@ func (h *Hist) randomEvent() string {
 		return "asg-change"
 	case 15:
 		cpu, mem := h.groupNodeSize(gi)
-		switch r.intn(4) {
+		switch r.intn(5) {
+		case 4: // detached by an operator: not in the ASG any more, cordoned, still carrying an (expired) escalator or force taint
+			n := h.addNode(gi, cpu, mem, int64(r.pickI(100, 5000)), false)
+			n.Unschedulable = true
+			if r.chance(60) {
+				n.Taints = append(n.Taints, WTaint{Key: escKey, Effect: "NoSchedule", Rel: true, Ago: 3 * hard})
+			} else {
+				n.Taints = append(n.Taints, WTaint{Key: forceKey, Effect: "NoSchedule", Raw: "x"})
+			}
+			return "detached-cordoned-node"
 		case 0: // a node the ASG does not know
 			h.addNode(gi, cpu, mem, int64(r.pickI(0, 50)), false)
 			return "foreign-node"
@@ -620,7 +636,7 @@ func (h *Hist) runHistory(scans int) (bool, string) {
 				faults[0] = true // the refresh itself (costs 5 s of real sleep per retry)
 			}
 		}
-		if slowOK && focus == "cooldown" && h.r.chance(35) {
+		if slowOK && (focus == "cooldown" || focus == "up") && h.r.chance(35) {
 			faults[0] = true // credentials refresh fails inside (or outside) a cool-down: the provider is rebuilt
 		}
 		if h.r.chance(10) {
